@@ -247,7 +247,8 @@ def check_r182(fx, rep, size_fn):
                                     msg = f"field `{f}` of rebuilt `{V}` is not built from the matched `{f}`"
                                     break
                                 if k:
-                                    has_call = any(True for c, _ in F.calls(e))
+                                    COPYING = {"clone", "iter", "into_iter", "map", "collect", "collect_vec", "cloned", "copied", "to_vec", "to_owned", "as_ref", "borrow", "deref"}
+                                    has_call = any((c["method"] if c.get("k") == "MethodCall" else (F.callee_def(c) or "").split("::")[-1]) not in COPYING for c, _ in F.calls(e))
                                     if not has_call:
                                         ok = False
                                         msg = f"child `{f}` of `{V}` is copied without being transformed"
